@@ -247,3 +247,74 @@ Theorem C04_history_example :
   = [[]; [FBodySchema]; [FBodySchema]].
 Proof. exact history_example. Qed.
 Print Assumptions C04_history_example.
+
+(* ---------- header value coercion (checks.py:197 _coerce_header_value) on header TEXT ---------- *)
+(* a header documented {type: integer, minimum: lo, maximum: hi} conforms exactly when int() reads its text,
+   and the EXACT integer read satisfies the bounds: all texts, all bounds, unbounded Z *)
+Theorem C04_integer_header_iff : forall lo hi text,
+  hdr_int_conforms lo hi text = true <->
+  exists z, py_int_u text = Some z /\ (forall l, lo = Some l -> (l <= z)%Z) /\ (forall h, hi = Some h -> (z <= h)%Z).
+Proof. exact integer_header_iff. Qed.
+Print Assumptions C04_integer_header_iff.
+
+(* the coercion of an integer-typed header: the exact integer of the literal, else the unchanged text *)
+Theorem C04_coerce_integer_cases : forall text,
+  (exists z, py_int_u text = Some z /\ coerce_header TInteger text = HInt z)
+  \/ (py_int_u text = None /\ coerce_header TInteger text = HStr text).
+Proof. exact coerce_integer_cases. Qed.
+Print Assumptions C04_coerce_integer_cases.
+
+(* every decimal literal (decimal digits of any script, single underscores between digits), bare or signed,
+   is read as exactly its value, whatever its size *)
+Theorem C04_int_literal_exact : forall body n, int_body body n ->
+  py_int_u body = Some (Z.of_N n) /\ py_int_u (43 :: body) = Some (Z.of_N n)
+  /\ py_int_u (45 :: body) = Some (Z.opp (Z.of_N n)).
+Proof. exact int_literal_sound. Qed.
+Print Assumptions C04_int_literal_exact.
+
+(* a text with any character that is not a decimal digit, underscore, sign or int() whitespace is not an integer *)
+Theorem C04_int_rejects_foreign_character : forall text c,
+  In c text -> mem c int_ws = false -> decimal_of c = None -> c <> 95 -> c <> 43 -> c <> 45 ->
+  py_int_u text = None.
+Proof. exact int_rejects_char. Qed.
+Print Assumptions C04_int_rejects_foreign_character.
+
+(* in particular exponent and decimal point notation: such a header stays a string and fails type: integer *)
+Theorem C04_int_rejects_exponent_and_point : forall a b,
+  py_int_u (a ++ 101 :: b) = None /\ py_int_u (a ++ 69 :: b) = None /\ py_int_u (a ++ 46 :: b) = None.
+Proof. exact int_rejects_exponent_and_point. Qed.
+Print Assumptions C04_int_rejects_exponent_and_point.
+
+Theorem C04_integer_header_not_literal : forall lo hi text,
+  py_int_u text = None -> coerce_header TInteger text = HStr text /\ hdr_int_conforms lo hi text = false.
+Proof. exact integer_header_not_literal. Qed.
+Print Assumptions C04_integer_header_not_literal.
+
+(* SENTINEL: reading the integer through float() is a different function: 1e3 passes type: integer,
+   2**53+1 passes maximum 2**53 (misses), 2**53+3 fails maximum 2**53+3 (false alarm) *)
+Theorem C04_header_through_float_sentinel_refuted :
+  (hdr_int_conforms None None t_1e3 = false /\ hdr_int_conforms_through_float None None t_1e3 = true)
+  /\ (hdr_int_conforms None (Some two53) t_two53_plus1 = false
+      /\ hdr_int_conforms_through_float None (Some two53) t_two53_plus1 = true)
+  /\ (hdr_int_conforms None (Some 9007199254740995%Z) t_two53_plus3 = true
+      /\ hdr_int_conforms_through_float None (Some 9007199254740995%Z) t_two53_plus3 = false).
+Proof. exact through_float_refuted. Qed.
+Print Assumptions C04_header_through_float_sentinel_refuted.
+
+Theorem C04_integer_header_examples :
+  coerce_header TInteger [160;43;49;95;48;48;48;32] = HInt 1000
+  /\ coerce_header TInteger [1636;1634] = HInt 42
+  /\ coerce_header TInteger [45;48;48;55] = HInt (-7)
+  /\ coerce_header TInteger [28;52;50] = HStr [28;52;50]
+  /\ coerce_header TInteger [49;95;95;48] = HStr [49;95;95;48]
+  /\ coerce_header TInteger [49;50;46;48] = HStr [49;50;46;48]
+  /\ coerce_header TInteger t_two53_plus1 = HInt 9007199254740993
+  /\ hdr_int_conforms (Some 10%Z) (Some 20%Z) [49;53] = true
+  /\ hdr_int_conforms (Some 10%Z) (Some 20%Z) [50;49] = false
+  /\ int_body [49;95;48;48;48] 1000
+  /\ coerce_header TBoolean [79;78] = HBool true
+  /\ coerce_header TBoolean [50] = HStr [50]
+  /\ coerce_header TNull [78;117;108;108] = HNull
+  /\ coerce_header TNumber [52;50] = HFloatOfInt 42.
+Proof. exact integer_header_examples. Qed.
+Print Assumptions C04_integer_header_examples.
